@@ -135,6 +135,10 @@ def known_replays():
 
 def corpus():
     return [
+        # an int that is also an object (IntEnum member: its attributes are its children) next to plain ints and strings
+        {'objs': [{'t': 'atom', 'k': 'intenum'}, {'t': 'int', 'v': 7}, {'t': 'str', 'v': 'plain'}, {'t': 'list', 'e': [1, 0, 2]}],
+         'locals': [['level', 0], ['n', 1], ['s', 2], ['xs', 3]], 'frame_type': 'single_frame', 'stream': 'corpus',
+         'actions': [{'limits': {}, 'watches': ['n', 'level']}]},
         # a captured return value after the budget is used up must not be attached without id
         {'objs': [{'t': 'list', 'e': [1, 2, 3]}, {'t': 'int', 'v': 1}, {'t': 'int', 'v': 2}, {'t': 'int', 'v': 3},
                   {'t': 'str', 'v': 'bb'}],
@@ -190,7 +194,13 @@ def oracle(case, obs):
     v = []
     if 'raised' in obs:
         v.append('trace_call raised into the host: ' + obs['raised'])
-    for ai, s in cc.snapshots_by_action(case, obs):
+    got = dict(cc.snapshots_by_action(case, obs))
+    for ai, a in enumerate(case['actions']):
+        # "in EVERY snapshot ...": a due snapshot that is not produced cannot be closed either — without this a change that
+        # loses the snapshot of some object graph would be a mere disagreement with the model
+        if obs.get('due', [True] * len(case['actions']))[ai] and ai not in got:
+            v.append(f'tracepoint tp{ai}: no snapshot was handed to the push service although it is due')
+    for ai, s in got.items():
         v += cc.judge_identity(case, obs, live, ai, s)
     v += cc.judge_wire(case, obs, delivery=False)
     return v
